@@ -51,6 +51,40 @@ HotpSeqOk(r) ==
      /\ r.ctr2 = CtrNext(c2)
      /\ r.okW = vw[1] /\ r.ctrW = vw[2] /\ r.okR = vr[1] /\ r.ctrR = vr[2]
 
+\* ---- C10: fragment scripts on the Start/Step/Get bundles (driver mode "steps").  Whatever the
+\* fragmentation, the Get positions and the relocations of the state: the concatenated output is the
+\* one-shot value of the concatenated input, every Get is the one-shot value of the prefix.
+CtrAdd(c, k) == FoldLeft(LAMBDA a, i : CtrNext(a), c, Upto(k))
+PrgAfterStart(r, code) ==        \* automaton after Start and the Start of a data command: <<S, buflen>>
+  LET b == BufLen(r.l, r.d, Len(r.key) # 0)
+  IN << CommitS(StartS(r.l, r.d, r.ann, r.key), 1 + Len(r.ann) + Len(r.key), b, code), b >>
+StepsOk(r) ==
+  LET lens == [i \in 1..Len(r.xs) |-> Len(r.xs[i])] IN
+  /\ r.vbad = 0
+  /\ CASE r.b = "bashHash" -> \A i \in 1..Len(r.gets) : r.gets[i].tag = BashHash(r.l, TakeN(r.in, r.gets[i].xlen))
+       [] r.b = "prgAbsorb" ->
+            LET c == PrgAfterStart(r, CodeDATA) IN
+            \A i \in 1..Len(r.gets) :
+               LET a == Duplex(c[1], 0, c[2], TakeN(r.in, r.gets[i].xlen), "absorb")
+               IN r.gets[i].tag = Duplex(CommitS(a.s, a.pos, c[2], CodeOUT), 0, c[2], Zeros(32), "squeeze").out
+       [] r.b = "prgSqueeze" ->
+            LET b == BufLen(r.l, r.d, Len(r.key) # 0)
+                a == Duplex(PrgAfterStart(r, CodeDATA)[1], 0, b, r.pre, "absorb")
+            IN r.out = Duplex(CommitS(a.s, a.pos, b, CodeOUT), 0, b, Zeros(Len(r.in)), "squeeze").out
+       [] r.b = "prgEncr" -> LET c == PrgAfterStart(r, CodeTEXT) IN r.out = Duplex(c[1], 0, c[2], r.in, "encr").out
+       [] r.b = "prgDecr" -> LET c == PrgAfterStart(r, CodeTEXT) IN r.out = Duplex(c[1], 0, c[2], r.in, "decr").out
+       [] r.b = "brngCTR" -> /\ r.outs = CTRSteps(r.key, r.iv, r.xs)[2]
+                             /\ \A i \in 1..Len(r.gets) :
+                                   r.gets[i].tag = CTRSteps(r.key, r.iv, SubSeq(r.xs, 1, r.gets[i].k))[1].s
+       [] r.b = "brngHMAC" -> r.outs = HMACSteps(r.key, r.iv, lens)
+       [] r.b = "hotp" -> /\ \A i \in 1..Len(r.outs) : r.outs[i] = HOTP(r.digit, r.key, CtrAdd(r.ctr, i - 1))
+                          /\ \A i \in 1..Len(r.gets) : r.gets[i].tag = CtrAdd(r.ctr, r.gets[i].k)
+       [] r.b = "totp" -> \A i \in 1..Len(r.outs) : r.outs[i] = TOTP(r.digit, r.key, TimeBE(r.t))
+       [] r.b = "ocra" -> /\ \A i \in 1..Len(r.outs) :
+                                r.outs[i] = OCRA(r.suite, r.key, r.q, CtrAdd(r.ctr, i - 1), r.p, r.s, TimeBE(r.t))
+                          /\ \A i \in 1..Len(r.gets) : r.gets[i].tag = CtrAdd(r.ctr, r.gets[i].k)
+       [] OTHER -> FALSE
+
 LineOk(r) ==
   CASE r.op = "bashF"    -> r.out = BashF(r.in)
     [] r.op = "bashHash" -> IF r.l \in HashLevels
@@ -77,6 +111,7 @@ LineOk(r) ==
     [] r.op = "ocra"     -> OcraRandOk(r)
     [] r.op = "ocraV"    -> OcraVerifyOk(r)
     [] r.op = "ocraSeq"  -> OcraSeqOk(r)
+    [] r.op = "steps"    -> StepsOk(r)
     [] OTHER -> FALSE
 
 VARIABLES phase, idx, ok
